@@ -2,6 +2,7 @@
 package c07
 
 import (
+	"bytes"
 	"fmt"
 	"reflect"
 	"runtime/metrics"
@@ -558,6 +559,98 @@ func unknownInsertion(c *explore.Ctx) {
 	}
 }
 
+// ---- growth of repeated fields
+
+type growInner struct {
+	X int64
+	S string
+}
+
+type growInts struct{ A []int64 }
+type growFixed struct {
+	A []float64
+}
+type growStrs struct{ A []string }
+type growBytes struct{ A [][]byte }
+type growMsgs struct{ A []growInner }
+type growPtrs struct{ A []*growInner }
+type growInMap struct{ M map[string]growInts }
+type growNested struct {
+	N *growInts
+	B int32
+}
+
+var growKinds = []struct {
+	name string
+	mk   func() any
+	elem []byte // one occurrence of field 1 inside the message that holds the repeated field
+	wrap func(payload []byte) []byte
+	get  func(x any) int
+}{
+	{"[]int64", func() any { return new(growInts) }, []byte{0x08, 0x07}, nil, func(x any) int { return len(x.(*growInts).A) }},
+	{"[]float64", func() any { return new(growFixed) }, []byte{0x09, 0, 0, 0, 0, 0, 0, 0xf0, 0x3f}, nil, func(x any) int { return len(x.(*growFixed).A) }},
+	{"[]string", func() any { return new(growStrs) }, []byte{0x0a, 0x02, 'h', 'i'}, nil, func(x any) int { return len(x.(*growStrs).A) }},
+	{"[][]byte", func() any { return new(growBytes) }, []byte{0x0a, 0x01, 0xff}, nil, func(x any) int { return len(x.(*growBytes).A) }},
+	{"[]message", func() any { return new(growMsgs) }, []byte{0x0a, 0x04, 0x08, 0x01, 0x12, 0x00}, nil, func(x any) int { return len(x.(*growMsgs).A) }},
+	{"[]*message", func() any { return new(growPtrs) }, []byte{0x0a, 0x02, 0x08, 0x05}, nil, func(x any) int { return len(x.(*growPtrs).A) }},
+	{"map value", func() any { return new(growInMap) }, []byte{0x08, 0x07}, func(p []byte) []byte {
+		entry := append([]byte{0x0a, 0x01, 'k', 0x12}, protowire.AppendVarint(nil, uint64(len(p)))...)
+		entry = append(entry, p...)
+		return append(append([]byte{0x0a}, protowire.AppendVarint(nil, uint64(len(entry)))...), entry...)
+	}, func(x any) int { return len(x.(*growInMap).M["k"].A) }},
+	{"nested message", func() any { return new(growNested) }, []byte{0x08, 0x07}, func(p []byte) []byte {
+		return append(append(append([]byte{0x0a}, protowire.AppendVarint(nil, uint64(len(p)))...), p...), 0x10, 0x01)
+	}, func(x any) int {
+		if n := x.(*growNested).N; n != nil {
+			return len(n.A)
+		}
+		return -1
+	}},
+}
+
+var growCounts = []int{0, 1, 2, 3, 4, 5, 6, 7, 8, 9, 10, 11, 12, 16, 20, 21, 22, 23, 24, 33, 100, 1000}
+
+func repeatedGrowth(c *explore.Ctx) {
+	k := growKinds[c.Choose(len(growKinds))]
+	n := growCounts[c.Choose(len(growCounts))]
+	payload := bytes.Repeat(k.elem, n)
+	in := payload
+	if k.wrap != nil {
+		in = k.wrap(payload)
+	}
+	run := func() (x any, err error, pv any, site string) {
+		x = k.mk()
+		pv, site = explore.Catch(func() { err = proto.Unmarshal(in, x) })
+		return
+	}
+	run() // codec construction is not part of the measured decode
+	b0 := allocated()
+	x, err, pv, site := run()
+	used := allocated() - b0
+	desc := fmt.Sprintf("%d occurrences of a repeated field (%s), %d bytes", n, k.name, len(in))
+	switch {
+	case pv != nil:
+		c.Fail("growth:panic:"+site+":"+explore.PanicClass(pv), "Unmarshal panics on %s: %v", desc, pv)
+	case err != nil:
+		c.Fail("growth:error:"+k.name, "Unmarshal fails on %s: %v", desc, err)
+	case k.get(x) != n && !(n == 0 && k.get(x) <= 0):
+		c.Fail("growth:elements-lost:"+k.name, "Unmarshal of %s yields %d elements", desc, k.get(x))
+	}
+	for rep := 0; rep < 3 && used > budget(len(in)); rep++ { // lazily flushed allocation statistics: only a reproducible excess counts
+		b1 := allocated()
+		run()
+		if u := allocated() - b1; u < used {
+			used = u
+		}
+	}
+	if used > budget(len(in)) {
+		c.Fail("growth:alloc:"+k.name, "Unmarshal of %s allocated %d bytes (bound %d)", desc, used, budget(len(in)))
+	}
+	c.NontrivialStr("growth", k.name, fmt.Sprint(n))
+	c.Outcome(fmt.Sprintf("n>10=%v", n > 10))
+	c.Case(map[string]any{"kind": k.name, "elements": n, "input_bytes": len(in), "allocated": used})
+}
+
 // Spec returns the C07 check.
 func Spec() *explore.Spec {
 	return &explore.Spec{
@@ -566,6 +659,7 @@ func Spec() *explore.Spec {
 			{Name: "short-bytes", ShardDepth: 2, Body: shortBytes, Doc: "all byte strings <=2 over all 256 values and <=5 (6 thorough) over a 16-byte class alphabet x target types covering every codec"},
 			{Name: "length3", ShardDepth: 2, Body: length3, Doc: "all byte strings of length 3 over all 256 values for 6 representative targets"},
 			{Name: "mutations", ShardDepth: 2, Body: mutations, Doc: "valid encodings of boundary values: every prefix, every (position x 256) corruption, every byte replaced by special varints (0,1,127,128,2^31-1,2^32,2^63,2^64-1, 11-byte)"},
+			{Name: "repeated-growth", ShardDepth: 2, Body: repeatedGrowth, Doc: "repeated fields of 8 element kinds (varint, fixed, string, bytes, message, pointer to message, inside a map value, inside a nested message) receiving 0..12, 16, 20..24, 33, 100, 1000 elements: decodes, keeps every element, and allocates within the bound (the backing array is regrown geometrically)"},
 			{Name: "unknown-insertion", ShardDepth: 2, Body: unknownInsertion, Doc: "one unknown field (4 numbers x 8 wire forms) inserted at every top-level and nested field boundary of valid encodings; decoded value must not change"},
 		},
 		Rule: "exhaustive short inputs and complete mutation sets of valid encodings per target type; distinct non-trivial = distinct (target, mode/encoding) blocks",
